@@ -291,31 +291,38 @@ Proof.
 Qed.
 
 Section Second.
-  Variable e2s : expr -> string.
-  Variable np : binop -> expr -> bool -> bool.
-  Variable rk : string -> string.
+  Variable O : oracles.
 
-  Lemma lib_stmt_doc_content : forall mw s t, stmt_content s = stmt_content t ->
-    triple_doc (lib_stmt e2s np rk mw s) = triple_doc (lib_stmt e2s np rk mw t).
-  Proof. intros mw [k eol a b] [k' eol' a' b'] H. cbn in H. injection H as -> ->. reflexivity. Qed.
-  Lemma lib_stmt_pos : forall mw s, triple_pos (lib_stmt e2s np rk mw s) = stmt_pos s.
-  Proof. intros mw [k eol a b]. reflexivity. Qed.
+  Lemma lib_stmt_doc_content : forall mw first s t, stmt_content s = stmt_content t ->
+    triple_doc (lib_stmt O mw first s) = triple_doc (lib_stmt O mw first t).
+  Proof. intros mw first [k eol a b] [k' eol' a' b'] H. cbn in H. injection H as -> ->. reflexivity. Qed.
+  Lemma lib_stmt_pos : forall mw first s, triple_pos (lib_stmt O mw first s) = stmt_pos s.
+  Proof. intros mw first [k eol a b]. reflexivity. Qed.
+
+  Lemma map_lib_docs : forall mw first p q, map stmt_content q = map stmt_content p ->
+    map triple_doc (map (lib_stmt O mw first) q) = map triple_doc (map (lib_stmt O mw first) p).
+  Proof.
+    intros mw first p. induction p as [|t r' IH]; intros [|s r] Hc; try discriminate; [reflexivity|].
+    cbn [map] in *. injection Hc as Hs Hr. f_equal; [now apply lib_stmt_doc_content|now apply IH].
+  Qed.
 
   (* If the first output re-parses to statements q with the same content as p (same
      expressions with the same comment attachment, same end-of-line comments) at the positions
      the text gives them, the second pass of the library driver prints the same text. *)
   Theorem lib_driver_second_pass : forall mw p q,
     map stmt_content q = map stmt_content p ->
-    map stmt_pos q = map triple_pos (relayout 1 (map (lib_stmt e2s np rk mw) p)) ->
-    format_lib e2s np rk mw q = format_lib e2s np rk mw p.
+    map stmt_pos q = map triple_pos (relayout 1 (map_first (lib_stmt O mw) p)) ->
+    format_lib O mw q = format_lib O mw p.
   Proof.
     intros mw p q Hc Hp.
-    assert (E : map (lib_stmt e2s np rk mw) q = relayout 1 (map (lib_stmt e2s np rk mw) p)).
+    assert (E : map_first (lib_stmt O mw) q = relayout 1 (map_first (lib_stmt O mw) p)).
     { apply triples_eq.
-      - rewrite relayout_docs, !map_map. clear Hp. revert p Hc.
-        induction q as [|s r IH]; intros [|t r'] Hc; try discriminate; [reflexivity|].
-        cbn [map] in *. injection Hc as Hs Hr. f_equal; [now apply lib_stmt_doc_content|now apply IH].
-      - rewrite <- Hp, map_map. apply map_ext. intros s. apply lib_stmt_pos. }
+      - rewrite relayout_docs. destruct p as [|t r']; destruct q as [|s r]; try discriminate; [reflexivity|].
+        cbn [map_first map] in *. injection Hc as Hs Hr.
+        f_equal; [now apply lib_stmt_doc_content|now apply map_lib_docs].
+      - rewrite <- Hp. destruct q as [|s r]; [reflexivity|].
+        cbn [map_first map]. rewrite lib_stmt_pos. f_equal.
+        rewrite map_map. apply map_ext. intros x. apply lib_stmt_pos. }
     unfold format_lib.
     destruct p as [|t r']; destruct q as [|s r]; try discriminate; [reflexivity|].
     rewrite E, spacing_idempotent. reflexivity.
@@ -323,10 +330,15 @@ Section Second.
 
   (* the CLI driver does not look at positions *)
   Theorem cli_driver_second_pass : forall p q,
-    map stmt_content q = map stmt_content p -> format_cli e2s np rk q = format_cli e2s np rk p.
+    map stmt_content q = map stmt_content p -> format_cli O q = format_cli O p.
   Proof.
-    unfold format_cli. induction p as [|t r' IH]; intros [|s r] Hc; try discriminate; [reflexivity|].
-    cbn [map flat_map] in *. injection Hc as Hs Hr. rewrite (IH r Hr). f_equal.
-    destruct s as [k eol a b], t as [k' eol' a' b']. cbn in Hs. injection Hs as -> ->. reflexivity.
+    assert (S : forall first s t, stmt_content s = stmt_content t -> cli_stmt O first s = cli_stmt O first t).
+    { intros first [k eol a b] [k' eol' a' b'] H. cbn in H. injection H as -> ->. reflexivity. }
+    assert (M : forall first p q, map stmt_content q = map stmt_content p ->
+                map (cli_stmt O first) q = map (cli_stmt O first) p).
+    { intros first p. induction p as [|t r' IH]; intros [|s r] Hc; try discriminate; [reflexivity|].
+      cbn [map] in *. injection Hc as Hs Hr. f_equal; [now apply S|now apply IH]. }
+    unfold format_cli. intros [|t r'] [|s r] Hc; try discriminate; [reflexivity|].
+    cbn [map_first map] in *. injection Hc as Hs Hr. now rewrite (S true s t Hs), (M false r' r Hr).
   Qed.
 End Second.
